@@ -80,6 +80,7 @@ class ModuleSpec:
     ignore_calls: List[str] = field(default_factory=list)  # "logger.error", "time.sleep" ... (no semantic effect in the model)
     prelude: str = ""
     expr_map: Dict[str, Tuple[str, str]] = field(default_factory=dict)  # ast.unparse(expr) -> (lean text, type), checked first
+    attr_vars: Dict[str, Tuple[str, str]] = field(default_factory=dict)  # "step.step_is_done" -> (variable name, type): an attribute treated as a mutable variable that is passed in and returned
     attr_assign_events: Dict[str, str] = field(default_factory=dict)  # "command.step_is_done" -> event name (value appended)
     imports: List[str] = field(default_factory=lambda: ["MlodaVerif.Model.PyRt"])
     opens: List[str] = field(default_factory=lambda: ["PyRt"])
@@ -112,13 +113,23 @@ class FnTranslator:
         self.oracles: Dict[str, str] = {}  # oracle parameter -> lean type
         self.declared: set = set(self.env)
         self.tmp = 0
+        self.attr_written: List[str] = []
         self.reassigned: List[str] = []  # parameters assigned a new value (need a mutable shadow, not returned)
         self.try_flag: Optional[str] = None
         self.lines: List[str] = []
 
     # ---------------------------------------------------------------- analysis
     def analyse(self, stmts: List[ast.stmt]) -> None:
+        self.attr_params: List[str] = []
         for node in ast.walk(ast.Module(body=stmts, type_ignores=[])):
+            if isinstance(node, ast.Attribute) and dotted(node) in self.ms.attr_vars:
+                vn, vt = self.ms.attr_vars[dotted(node)]
+                if vn not in self.env:
+                    self.env[vn] = vt
+                    self.declared.add(vn)
+                    self.attr_params.append(vn)
+                if isinstance(node.ctx, ast.Store) and vn not in self.attr_written:
+                    self.attr_written.append(vn)
             if isinstance(node, ast.Call) and isinstance(node.func, ast.Attribute) and node.func.attr in SET_MUTATORS:
                 tgt = dotted(node.func.value)
                 if tgt in self.env and self.env[tgt] == "set" and tgt not in self.mutated:
@@ -161,6 +172,17 @@ class FnTranslator:
                     self.effects = self.effects or callee.effects
                     self.self_mut = self.self_mut or callee.self_mut
                     self.oracles.update(callee.oracles)
+                    for av in callee.attr_params:
+                        if av not in self.env:
+                            self.env[av] = callee.env[av]
+                            self.declared.add(av)
+                            self.attr_params.append(av)
+                    for av in callee.attr_written:
+                        if av not in self.attr_written:
+                            self.attr_written.append(av)
+                    for xp in callee.spec.extra_params:
+                        if xp not in self.spec.extra_params:
+                            self.spec.extra_params.append(xp)
         # keep parameter order
         order = list(self.spec.params) + list(self.spec.live_in)
         self.mutated.sort(key=lambda n: order.index(n))
@@ -175,6 +197,8 @@ class FnTranslator:
         for lo in self.spec.live_out:
             if lo not in self.mutated:
                 comps.append((lo, LEAN_TY[self.env[lo]]))
+        for av in self.attr_written:
+            comps.append((av, LEAN_TY[self.env[av]]))
         if self.self_mut:
             comps.append(("self", self.spec.self_type or "Unit"))
         if self.effects:
@@ -235,6 +259,9 @@ class FnTranslator:
             if e.id not in self.env:
                 raise Unsupported(f"unknown name {e.id}")
             return lname(e.id), self.env[e.id]
+        if isinstance(e, ast.Attribute) and dotted(e) in self.ms.attr_vars:
+            vn, vt = self.ms.attr_vars[dotted(e)]
+            return lname(vn), vt
         if isinstance(e, ast.Attribute):
             d = dotted(e)
             if d in self.ms.attrs:
@@ -333,6 +360,14 @@ class FnTranslator:
             if sty not in ("set", "natlist"):
                 raise Unsupported(f"len() of {sty}")
             return f"{s}.length", "nat"
+        if d == "isinstance" and len(e.args) == 2 and isinstance(e.args[1], ast.Tuple):
+            parts = []
+            for cl in e.args[1].elts:
+                key = (dotted(e.args[0]) or "?", dotted(cl) or ast.unparse(cl))
+                if key not in self.ms.isinstance_map:
+                    raise Unsupported(f"isinstance{key}")
+                parts.append(self.ms.isinstance_map[key])
+            return "(" + " || ".join(parts) + ")", "bool"
         if d == "isinstance" and len(e.args) == 2:
             key = (dotted(e.args[0]) or "?", dotted(e.args[1]) or ast.unparse(e.args[1]))
             if key in self.ms.isinstance_map:
@@ -396,6 +431,10 @@ class FnTranslator:
         if callee.spec.self_type:
             call += " self"
         call += "".join(" " + t for t in texts)
+        for av in callee.attr_params:
+            if av not in self.env:
+                raise Unsupported(f"callee {callee.spec.py_name} reads attribute variable {av} unknown here")
+            call += " " + lname(av)
         for n_, _ in callee.spec.extra_params:
             call += " " + lname(n_)
         for o in callee.oracles:
@@ -418,6 +457,10 @@ class FnTranslator:
                 b = self.fresh("log")
                 binders.append(b)
                 rebind.append(f"log := {b}")
+            elif n in callee.attr_written:
+                b = self.fresh(n)
+                binders.append(b)
+                rebind.append(f"{lname(n)} := {b}")
             else:
                 # a mutated parameter of the callee: the caller's argument object is the same Python object
                 src = args[n]
@@ -566,6 +609,14 @@ class FnTranslator:
             else:
                 raise Unsupported(f"augmented assignment {ast.unparse(s)}")
             return
+        if isinstance(s, ast.Assign) and len(s.targets) == 1 and isinstance(s.targets[0], ast.Attribute) and dotted(s.targets[0]) in self.ms.attr_vars:
+            vn, vt = self.ms.attr_vars[dotted(s.targets[0])]
+            v, vty = self.expr(s.value, pre)
+            self.flush(ind, pre)
+            if vty != vt:
+                raise Unsupported(f"{dotted(s.targets[0])} assigned a {vty}")
+            self.emit(ind, f"{lname(vn)} := {v}")
+            return
         if isinstance(s, ast.Assign) and len(s.targets) == 1 and isinstance(s.targets[0], ast.Attribute) and dotted(s.targets[0]) in self.ms.attr_assign_events:
             v, vty = self.expr(s.value, pre)
             self.flush(ind, pre)
@@ -663,6 +714,12 @@ class FnTranslator:
                 msg = str(s.exc.args[0].value).replace('"', "'")
                 self.emit(ind, f'throw ({ctor} "{msg}")')
                 return
+            if isinstance(s.exc, ast.Call) and dotted(s.exc.func) in ("Exception", "ValueError") and len(s.exc.args) == 1 and isinstance(s.exc.args[0], ast.JoinedStr):
+                self.expr(s.exc.args[0], pre)  # checks the interpolated expressions
+                self.flush(ind, pre)
+                ctor = ".exception" if dotted(s.exc.func) == "Exception" else ".valueError"
+                self.emit(ind, f'throw ({ctor} "<f-string>")')
+                return
             if isinstance(s.exc, ast.Call) and dotted(s.exc.func) == "Exception" and all(isinstance(a, ast.Name) and self.env.get(a.id) == "str" for a in s.exc.args):
                 self.emit(ind, f'throw (.exception "{ast.unparse(s.exc)}")')
                 return
@@ -701,6 +758,8 @@ class FnTranslator:
             params.append(f"(self : {self.spec.self_type})")
         for n, ty in list(self.spec.params.items()) + list(self.spec.live_in.items()):
             params.append(f"({lname(n)} : {LEAN_TY[ty]})")
+        for av in self.attr_params:
+            params.append(f"({lname(av)} : {LEAN_TY[self.env[av]]})")
         for n, ty in self.spec.extra_params:
             params.append(f"({lname(n)} : {ty})")
         for o, ty in self.oracles.items():
@@ -713,6 +772,8 @@ class FnTranslator:
         for lo in self.spec.live_out:
             if lo not in self.mutated and lo in self.env:
                 self.emit(1, f"let mut {lname(lo)} := {lname(lo)}")
+        for av in self.attr_written:
+            self.emit(1, f"let mut {lname(av)} := {lname(av)}")
         for ra in self.reassigned:
             if ra not in self.mutated and ra not in self.spec.live_out:
                 self.emit(1, f"let mut {lname(ra)} := {lname(ra)}")
